@@ -44,12 +44,13 @@ def plan(tier, seed):
     m1, s1, t1 = machines(1, p["one_arcs"])
     m2, s2, t2 = machines(2, p["two_arcs"])
     cases = []
-    for a in m1:
-        for b in m1:
-            cases.append({"mode": "pair", "F": fsm.ops_json(a), "G": fsm.ops_json(b)})
+
     def eps(o):
         return any(x[0] == "A" and EPS in x[2] for x in o)
 
+    for a in m1:
+        for b in m1:
+            cases.append({"mode": "pair", "F": fsm.ops_json(a), "G": fsm.ops_json(b)})
     for a in m1:
         narcs = sum(1 for x in a if x[0] == "A")
         for b in m2:
@@ -58,13 +59,21 @@ def plan(tier, seed):
             cases.append({"mode": "pair", "F": fsm.ops_json(a), "G": fsm.ops_json(b)})
             cases.append({"mode": "pair", "F": fsm.ops_json(b), "G": fsm.ops_json(a)})
     if p["pair22"]:
-        small2 = [o for o in m2 if sum(1 for x in o if x[0] == "A") <= 2 and len(o) <= 5]
+        # 2x2 pairs: both machines small (<= 4 builder ops) and epsilon-bearing (the interesting association / filter cases)
+        small2 = [o for o in m2 if len(o) <= 4 and eps(o)]
         for a in small2:
             for b in small2:
                 cases.append({"mode": "pair", "F": fsm.ops_json(a), "G": fsm.ops_json(b)})
     for a in m1 + m2:
         cases.append({"mode": "single", "F": fsm.ops_json(a)})
+    # falsy / integer symbols (token ids, bytes): the same 1x1 pairs and one-state machines with a->0, b->1
+    for a in m1:
+        cases.append({"mode": "single", "F": fsm.ops_json(a), "ints": True})
+        for b in m1:
+            cases.append({"mode": "pair", "F": fsm.ops_json(a), "G": fsm.ops_json(b), "ints": True})
     cases.append({"mode": "ctor"})
+    for k in range(len(INTERLEAVE_POOLS)):
+        cases.append({"mode": "interleave", "pool": k})
     return {
         "cases": cases,
         "states": s1 + s2,
@@ -124,10 +133,20 @@ def table_of(m, fst=True):
         return f"malformed machine (arc label is not a pair?): {type(e).__name__}: {e}"
 
 
+IMAP = {"a": 0, "b": 1}
+
+
+def int_ops(ops):
+    return tuple(o if o[0] != "A" else ("A", o[1], (IMAP.get(o[2][0], o[2][0]), IMAP.get(o[2][1], o[2][1])), o[3]) for o in ops)
+
+
 def run_pair(case):
     p = cfgp()
     F = fsm.ops_from_json(case["F"])
     G = fsm.ops_from_json(case["G"])
+    SY = ["a", "b"]
+    if case.get("ints"):
+        F, G, SY = int_ops(F), int_ops(G), [0, 1]
     narcs = sum(1 for o in F + G if o[0] == "A")
     if narcs <= 2:
         # few arcs: indeterminates on initial and final weights too (their handling is checked here)
@@ -140,7 +159,7 @@ def run_pair(case):
     tF = clean(paths(fsm.data(F, WF), fst=True))
     tG = clean(paths(fsm.data(G, WG), fst=True))
     want = compose_tables(tF, tG)
-    inp0 = {"F": case["F"], "G": case["G"]}
+    inp0 = {"F": case["F"], "G": case["G"]} if not case.get("ints") else {"F": case["F"], "G": case["G"], "symbols": "a,b -> 0,1"}
     fails = []
     evals = 0
     f = fsm.build(FST, Poly, F, WF)
@@ -152,7 +171,7 @@ def run_pair(case):
         fails.append(_fail("(f@g) relates x to z with sum_y f(x,y)*g(y,z)", inp0, have, want))
     if not isinstance(fg, str):
         # through the library's own evaluation, on the shortest related pair and two fixed probes
-        probes = sorted(want, key=lambda k: (len(k[0]) + len(k[1]), k))[:1] + [((), ()), (("a",), ("b",))]
+        probes = sorted(want, key=lambda k: (len(k[0]) + len(k[1]), repr(k)))[:1] + [((), ()), ((SY[0],), (SY[1],))]
         for x, z in probes:
             if len(x) > 2 or len(z) > 2:
                 continue
@@ -181,13 +200,16 @@ def run_pair(case):
 def run_single(case):
     p = cfgp()
     F = fsm.ops_from_json(case["F"])
+    SY = ["a", "b"]
+    if case.get("ints"):
+        F, SY = int_ops(F), [0, 1]
     WF = fsm.poly_weights(len(F))
     tF = clean(paths(fsm.data(F, WF), fst=True))
-    inp0 = {"F": case["F"]}
+    inp0 = {"F": case["F"]} if not case.get("ints") else {"F": case["F"], "symbols": "a,b -> 0,1"}
     fails = []
     evals = 0
     f = fsm.build(FST, Poly, F, WF)
-    strs = list(strings_upto(["a", "b"], p["strlen"]))
+    strs = list(strings_upto(SY, p["strlen"]))
     for x in strs:
         for y in strs:
             want = tF.get((x, y), Poly.zero)
@@ -275,5 +297,98 @@ def run_ctor(case):
     return {"evals": evals, "nontrivial": 1, "fails": fails, "counters": {"executions": evals}}
 
 
+INTERLEAVE_POOLS = [
+    [("I", 0), ("F", 1), ("A", 0, ("a", "b"), 1), ("A", 1, (EPS, "a"), 1), ("A", 1, ("a", EPS), 0), ("F", 0)],
+    [("I", 0), ("F", 0), ("A", 0, ("a", "a"), 0), ("A", 0, ("b", EPS), 1), ("A", 1, (EPS, EPS), 0), ("I", 1)],
+]
+
+
+def run_interleave(case):
+    """Histories interleaving add_I / add_F / add_arc with queries on ONE transducer object
+    (and on objects derived from it, e.g. t = f.T extended afterwards)."""
+    from vf import engine_hist as eh
+
+    pool = INTERLEAVE_POOLS[case["pool"]]
+    W = fsm.poly_weights(len(pool))
+    G_ops = (("I", 0), ("F", 0), ("A", 0, ("a", "a"), 0), ("A", 0, ("b", "a"), 0), ("A", 0, (EPS, "b"), 0))
+    WG = fsm.poly_weights(len(G_ops), offset=20)
+
+    def make():
+        return {"f": FST(Poly), "t": None}
+
+    def add(m, op, w):
+        if op[0] == "I":
+            m.add_I(op[1], w)
+        elif op[0] == "F":
+            m.add_F(op[1], w)
+        else:
+            m.add_arc(op[1], op[2], op[3], w)
+
+    # builder ops 0..n-1 extend f; builder ops n..2n-1 extend the transpose object t = f.T obtained EARLIER (if any)
+    n = len(pool)
+
+    def apply_builder(o, i):
+        if i < n:
+            add(o["f"], pool[i], W[i])
+        else:
+            if o["t"] is None:
+                o["t"] = o["f"].T
+            op = pool[i - n]
+            op2 = op if op[0] != "A" else ("A", op[1], (op[2][1], op[2][0]), op[3])
+            add(o["t"], op2, W[i - n])
+
+    queries = [("call", ("a",), ("b",)), ("call", (), ()), ("T", None), ("project0", None), ("project1", None), ("f@g", None), ("g@f", None), ("section", ("a",)), ("t.T", None), ("t.call", ("b",), ("a",)), ("table", None)]
+
+    def apply_query(o, q):
+        f = o["f"]
+        k = q[0]
+        if k == "call":
+            return _call(lambda: ("val", f(q[1], q[2])))
+        if k == "T":
+            return table_of(_call(lambda: f.T))
+        if k == "project0":
+            return table_of(_call(f.project, 0), fst=False)
+        if k == "project1":
+            return table_of(_call(f.project, 1), fst=False)
+        if k == "f@g":
+            return table_of(_call(lambda: f @ fsm.build(FST, Poly, G_ops, WG)))
+        if k == "g@f":
+            return table_of(_call(lambda: fsm.build(FST, Poly, G_ops, WG) @ f))
+        if k == "section":
+            return table_of(_call(f, q[1], None), fst=False)
+        if k == "table":
+            return table_of(f)
+        t = o["t"] if o["t"] is not None else f.T
+        if k == "t.T":
+            return table_of(_call(lambda: t.T))
+        return _call(lambda: ("val", t(q[1], q[2])))
+
+    def fresh_equiv(a, b):
+        return a == b
+
+    # the fresh object for a history receives the same builder ops; ops on t are replayed as ops on f's transpose:
+    # a fresh object applies them to f directly (transposed back), so that 't' always denotes transpose(f + extensions)
+    def make_fresh_semantics():
+        return None
+
+    res = eh.explore_interleaved(make, list(range(2 * n)), queries, apply_builder, apply_query, fresh_equiv, depth=4, max_queries=2)
+    fails = []
+    seen = set()
+    for hist, have, want in res["violations"]:
+        if any(k == "b" and i >= n for k, i in hist):
+            # histories that extend t: the reference semantics (fresh object) extends its own fresh transpose at
+            # the same point; both objects see the same operations, so answers must still agree
+            pass
+        q = queries[hist[-1][1]]
+        first_q = next(queries[i] for k, i in hist if k == "q")
+        key = (repr(q), repr(first_q), any(k == "b" and i >= n for k, i in hist))
+        if key in seen:
+            continue
+        seen.add(key)
+        pretty = [(("extend f " if i < n else "extend t=f.T ") + repr(pool[i % n])) if k == "b" else repr(queries[i]) for k, i in hist]
+        fails.append(_fail("transducer: answer after add_* equals a fresh transducer's (no stale cache)", {"object": "FST", "history": pretty}, have, want))
+    return {"evals": res["transitions"], "nontrivial": 1, "fails": fails, "counters": {"executions": res["transitions"], "hist_histories": res["histories"]}}
+
+
 def run_case(case):
-    return {"pair": run_pair, "single": run_single, "ctor": run_ctor}[case["mode"]](case)
+    return {"pair": run_pair, "single": run_single, "ctor": run_ctor, "interleave": run_interleave}[case["mode"]](case)
